@@ -5,7 +5,7 @@
   (`ℝ`, `ℂ`).  `ip n u w = Σ_{i<n} u i * conj (w i)` is what `valid_adjoint` computes.
   Quantifiers: all sizes, all vectors, all filters / index arrays / matrices, derivation trees of any depth.
 -/
-import Scico.Proofs.AdjointLinAdj
+import Scico.Proofs.AdjointComplex
 
 namespace Scico.Props.C01
 open Scico.Adjoint Finset
@@ -120,6 +120,24 @@ theorem C01_linear_adjoint_complex {jt} (hjt : JaxTranspose (K := K) jt) (m n : 
 theorem C01_linear_adjoint_real {jt} (hjt : JaxTranspose (K := K) jt) (m n : Nat) (M : Nat → Nat → K)
     (hM : ∀ i j, star (M i j) = M i j) : IsAdj (autoOp jt m n false false M) := autoOp_real_isAdj hjt m n M hM
 
+/-- an operator from a REAL space into `ℂᵐ` (`eval x = M x`, `adj y = Re(Mᴴ y)`) satisfies the identity in `Re⟪·,·⟫` -/
+theorem C01_real_to_complex (m n : Nat) (M : Nat → Nat → ℂ) : IsAdjRe (realToComplex m n M) :=
+  realToComplex_isAdjRe m n M
+
+/-- `scico.linear_adjoint`, real primal with complex output: the derived adjoint is `y ↦ Re(Mᴴ y)` -/
+theorem C01_linear_adjoint_real_to_complex {jt} (hjt : JaxTransposeRC jt) (m n : Nat) (M : Nat → Nat → ℂ)
+    (y : V ℂ) (j : Nat) (hj : j < n) :
+    linearAdjoint jt m n false true (mulVec n M) y j = (realToComplex m n M).adj y j :=
+  linearAdjoint_realToComplex hjt m n M y j hj
+
+/-- over `ℂ`, `IsAdjRe` says exactly `Re⟪A x, y⟫ = Re⟪x, Aᴴ y⟫` -/
+theorem C01_isAdjRe_iff (A : Op ℂ) :
+    IsAdjRe A ↔ ∀ x y, (ip A.nout (A.eval x) y).re = (ip A.nin x (A.adj y)).re := isAdjRe_iff A
+
+/-- for a complex-linear operator the identity of real parts gives the complex identity -/
+theorem C01_re_to_complex {A : Op ℂ} (hre : IsAdjRe A) (hE : CommutesI A.eval) : IsAdj A :=
+  re_to_complex hre hE
+
 /-- lifting lemma: for linear `eval`, `adj` the identity on all pairs of basis vectors gives the identity for all vectors -/
 theorem C01_basis {A : Op K} (hE : IsLinear A.nin A.eval) (hB : IsLinear A.nout A.adj)
     (hb : ∀ j < A.nin, ∀ i < A.nout,
@@ -137,6 +155,8 @@ theorem C01_dstack_pinned_fails (c : K) (hc : star c ≠ c) :
 
 /-! ### non-vacuity -/
 
+example : JaxTransposeRC probeTransposeRC := probeTransposeRC_ok
+
 -- a contract-satisfying transpose exists
 example : JaxTranspose (K := K) probeTranspose := probeTranspose_ok
 
@@ -148,7 +168,7 @@ example (A B : Nat → Nat → K) :
     IsAdj (run env e) := by
   intro env e
   apply C01_derived env _ e
-  · simp [e, wf, run, Op.memo_eq, env, Op.mat, Op.add, Op.smul, Op.herm, Op.comp, Op.gram, Op.tr, Op.cj, Op.vcons, Op.vnil]
+  · simp [e, wf, run, env, Op.mat, Op.add, Op.smul, Op.herm, Op.comp, Op.gram, Op.tr, Op.cj, Op.vcons, Op.vnil]
   · simp [e, divOK]
   · intro i
     by_cases h : i = 0 <;> simp [env, h] <;> exact mat_isAdj _ _ _
